@@ -22,6 +22,56 @@ type PFile struct {
 	Blocks []*PBlock `json:"blocks,omitempty"`
 	Conds  []*Cond   `json:"conds,omitempty"`
 	Raw    string    `json:"raw,omitempty"` // syntaxerr: literal contents
+	// Layout: how the tokens of `extend type T` / `type T` / `define r:` are
+	// separated and how lines are indented (everything the grammar allows where
+	// it says WHITESPACE): "" = one space / canonical indentation.
+	Layout string `json:"layout,omitempty"` // "" | wide | tabs | mixed
+	// DeliverAs: the file is handed to the merger under this name instead of
+	// Name (two different files under one name; C12 only).
+	DeliverAs string `json:"deliver_as,omitempty"`
+}
+
+func (f *PFile) sep(i int) string {
+	switch f.Layout {
+	case "wide":
+		return "  "
+	case "tabs":
+		return "\t"
+	case "mixed":
+		return []string{" ", "   ", "\t", " \t "}[i%4]
+	}
+	return " "
+}
+
+// relayout rewrites the canonical rendering of a block line by line.
+func (f *PFile) relayout(text string) string {
+	if f.Layout == "" {
+		return text
+	}
+	lines := strings.Split(text, "\n")
+	for i, l := range lines {
+		trim := strings.TrimLeft(l, " ")
+		indent := l[:len(l)-len(trim)]
+		if f.Layout != "wide" && indent != "" {
+			indent = strings.Repeat("\t", len(indent)/2)
+		}
+		switch {
+		case strings.HasPrefix(trim, "extend type "):
+			trim = "extend" + f.sep(i) + "type" + f.sep(i+1) + strings.TrimPrefix(trim, "extend type ")
+		case strings.HasPrefix(trim, "type "):
+			trim = "type" + f.sep(i) + strings.TrimPrefix(trim, "type ")
+		case strings.HasPrefix(trim, "define "):
+			rest := strings.TrimPrefix(trim, "define ")
+			if j := strings.Index(rest, ": "); j >= 0 {
+				rest = rest[:j] + []string{":", " :", ": ", " :  "}[i%4] + strings.TrimLeft(rest[j+2:], " ")
+			}
+			trim = "define" + f.sep(i) + rest
+		case strings.HasPrefix(trim, "condition "):
+			trim = "condition" + f.sep(i) + strings.TrimPrefix(trim, "condition ")
+		}
+		lines[i] = indent + trim
+	}
+	return strings.Join(lines, "\n")
 }
 
 func (f *PFile) contents() string {
@@ -34,15 +84,24 @@ func (f *PFile) contents() string {
 	} else {
 		sb.WriteString("module " + f.Module + "\n")
 	}
+	var body strings.Builder
 	for _, b := range f.Blocks {
-		sb.WriteString("\n")
-		b.Type.dsl(&sb, b.Extend)
+		body.WriteString("\n")
+		b.Type.dsl(&body, b.Extend)
 	}
 	for _, c := range f.Conds {
-		sb.WriteString("\n")
-		c.dsl(&sb)
+		body.WriteString("\n")
+		c.dsl(&body)
 	}
+	sb.WriteString(f.relayout(body.String()))
 	return sb.String()
+}
+
+func (f *PFile) deliveredName() string {
+	if f.DeliverAs != "" {
+		return f.DeliverAs
+	}
+	return f.Name
 }
 
 // Conflict is an injected conflict with the files that may legitimately be
@@ -88,6 +147,12 @@ func genDSLModel(r *rng) *Model {
 		if k.NObj < 2 {
 			k.NObj = 2 + r.intn(3)
 		}
+		if r.chance(30) {
+			// many public types in arbitrary order
+			k.PWild = 80
+			k.NTerm = 3 + r.intn(2)
+			k.MaxDirect = 4
+		}
 		saved := [5][]string{termNames, objNames, relPool, tsNames, condNames}
 		termNames, objNames, relPool, tsNames, condNames = safeTerm, safeObj, safeRel, safeTS, safeConds
 		if k.NTerm > len(termNames) {
@@ -114,7 +179,7 @@ func genModuleSet(r *rng, wantConflicts int) *wlMerge {
 			if j > 0 || r.chance(30) {
 				name = fmt.Sprintf("%s/%c.fga", modNames[i], 'a'+j)
 			}
-			files = append(files, &PFile{Name: name, Kind: "module", Module: modNames[i]})
+			files = append(files, &PFile{Name: name, Kind: "module", Module: modNames[i], Layout: []string{"", "", "", "", "wide", "tabs", "mixed"}[r.intn(7)]})
 		}
 	}
 	if len(files) > 6 {
